@@ -63,6 +63,7 @@ type World struct {
 	Mods  map[string]string
 	keyReg map[string][3]int
 	sidTs  map[int]uint64
+	simulating bool
 }
 
 // RegKey registers the model alias key string of (owner, alias, group) so that the dump can
